@@ -200,3 +200,519 @@ package lnwire
 //@   props C10
 //@   loop * havoc
 //@   site call IsEnabled: assert arg(0) == c.DisabledFlags.Val
+//@
+//@ // ---- zero-annotation bounds sweep (tools/sweep_gen.py): index and slice expressions of these functions are in range; loops abstracted
+//@
+//@ func (a *AcceptChannel) Decode
+//@   props C10
+//@   loop * havoc
+//@   bounds-safe
+//@
+//@ func (a *AnnounceSignatures1) Decode
+//@   props C10
+//@   loop * havoc
+//@   bounds-safe
+//@
+//@ func (a *AnnounceSignatures2) Decode
+//@   props C10
+//@   loop * havoc
+//@   bounds-safe
+//@
+//@ func decodeBlindedPath
+//@   props C10
+//@   loop * havoc
+//@   bounds-safe
+//@
+//@ func decodeBlindedPaths
+//@   props C10
+//@   loop * havoc
+//@   bounds-safe
+//@
+//@ func (a *ChannelAnnouncement1) Decode
+//@   props C10
+//@   loop * havoc
+//@   bounds-safe
+//@
+//@ func (c *ChannelAnnouncement2) Decode
+//@   props C10
+//@   loop * havoc
+//@   bounds-safe
+//@
+//@ func (c *ChannelAnnouncement2) DecodeNonSigTLVRecords
+//@   props C10
+//@   loop * havoc
+//@   bounds-safe
+//@
+//@ func decodeChannelID
+//@   props C10
+//@   loop * havoc
+//@   bounds-safe
+//@
+//@ func (c *ChannelReady) Decode
+//@   props C10
+//@   loop * havoc
+//@   bounds-safe
+//@
+//@ func channelTypeDecoder
+//@   props C10
+//@   loop * havoc
+//@   bounds-safe
+//@
+//@ func (a *ChannelUpdate1) Decode
+//@   props C10
+//@   loop * havoc
+//@   bounds-safe
+//@
+//@ func (c *ChannelUpdate2) Decode
+//@   props C10
+//@   loop * havoc
+//@   bounds-safe
+//@
+//@ func decodeDisableFlags
+//@   props C10
+//@   loop * havoc
+//@   bounds-safe
+//@
+//@ func booleanDecoder
+//@   props C10
+//@   loop * havoc
+//@   bounds-safe
+//@
+//@ func decodeClosingSigs
+//@   props C10
+//@   loop * havoc
+//@   bounds-safe
+//@
+//@ func (c *ClosingComplete) Decode
+//@   props C10
+//@   loop * havoc
+//@   bounds-safe
+//@
+//@ func decodeClosingSigSigs
+//@   props C10
+//@   loop * havoc
+//@   bounds-safe
+//@
+//@ func (c *ClosingSig) Decode
+//@   props C10
+//@   loop * havoc
+//@   bounds-safe
+//@
+//@ func (c *ClosingSigned) Decode
+//@   props C10
+//@   loop * havoc
+//@   bounds-safe
+//@
+//@ func (c *CommitSig) Decode
+//@   props C10
+//@   loop * havoc
+//@   bounds-safe
+//@
+//@ func (c *Custom) Decode
+//@   props C10
+//@   loop * havoc
+//@   bounds-safe
+//@
+//@ func ParseCustomRecords
+//@   props C10
+//@   loop * havoc
+//@   bounds-safe
+//@
+//@ func ParseCustomRecordsFrom
+//@   props C10
+//@   loop * havoc
+//@   bounds-safe
+//@
+//@ func (c CustomRecords) Validate
+//@   props C10
+//@   loop * havoc
+//@   bounds-safe
+//@
+//@ func DecodeRecords
+//@   props C10
+//@   loop * havoc
+//@   bounds-safe
+//@
+//@ func ValidateDNSAddr
+//@   props C10
+//@   loop * havoc
+//@   bounds-safe
+//@
+//@ func dnsAddressDecoder
+//@   props C10
+//@   loop * havoc
+//@   bounds-safe
+//@
+//@ func (da *DynAck) Decode
+//@   props C10
+//@   loop * havoc
+//@   bounds-safe
+//@
+//@ func (dc *DynCommit) Decode
+//@   props C10
+//@   loop * havoc
+//@   bounds-safe
+//@
+//@ func (dp *DynPropose) Decode
+//@   props C10
+//@   loop * havoc
+//@   bounds-safe
+//@
+//@ func (dr *DynReject) Decode
+//@   props C10
+//@   loop * havoc
+//@   bounds-safe
+//@
+//@ func (c *Error) Decode
+//@   props C10
+//@   loop * havoc
+//@   bounds-safe
+//@
+//@ func (e *ExtraOpaqueData) Decode
+//@   props C10
+//@   loop * havoc
+//@   bounds-safe
+//@
+//@ func ParseAndExtractCustomRecords
+//@   props C10
+//@   loop * havoc
+//@   bounds-safe
+//@
+//@ func ParseAndExtractExtraData
+//@   props C10
+//@   loop * havoc
+//@   bounds-safe
+//@
+//@ func (fv *RawFeatureVector) ValidateUpdate
+//@   props C10
+//@   loop * havoc
+//@   bounds-safe
+//@
+//@ func (fv *RawFeatureVector) ValidatePairs
+//@   props C10
+//@   loop * havoc
+//@   bounds-safe
+//@
+//@ func (fv *RawFeatureVector) Decode
+//@   props C10
+//@   loop * havoc
+//@   bounds-safe
+//@
+//@ func (f *FundingCreated) Decode
+//@   props C10
+//@   loop * havoc
+//@   bounds-safe
+//@
+//@ func (f *FundingSigned) Decode
+//@   props C10
+//@   loop * havoc
+//@   bounds-safe
+//@
+//@ func (g *GossipTimestampRange) Decode
+//@   props C10
+//@   loop * havoc
+//@   bounds-safe
+//@
+//@ func (msg *Init) Decode
+//@   props C10
+//@   loop * havoc
+//@   bounds-safe
+//@
+//@ func (p PubkeyIntro) validate
+//@   props C10
+//@   loop * havoc
+//@   bounds-safe
+//@
+//@ func (s SciddirIntro) validate
+//@   props C10
+//@   loop * havoc
+//@   bounds-safe
+//@
+//@ func (ks *KickoffSig) Decode
+//@   props C10
+//@   loop * havoc
+//@   bounds-safe
+//@
+//@ func ReadElements
+//@   props C10
+//@   loop * havoc
+//@   bounds-safe
+//@
+//@ func decodeLocalNoncesData
+//@   props C10
+//@   loop * havoc
+//@   bounds-safe
+//@
+//@ func decodeMilliSatoshis
+//@   props C10
+//@   loop * havoc
+//@   bounds-safe
+//@
+//@ func ValidateMusig2Nonce
+//@   props C10
+//@   loop * havoc
+//@   bounds-safe
+//@
+//@ func nonceTypeDecoder
+//@   props C10
+//@   loop * havoc
+//@   bounds-safe
+//@
+//@ func (a *NodeAnnouncement1) Decode
+//@   props C10
+//@   loop * havoc
+//@   bounds-safe
+//@
+//@ func (n *NodeAnnouncement2) Decode
+//@   props C10
+//@   loop * havoc
+//@   bounds-safe
+//@
+//@ func ValidateNodeAlias2
+//@   props C10
+//@   loop * havoc
+//@   bounds-safe
+//@
+//@ func nodeAlias2Decoder
+//@   props C10
+//@   loop * havoc
+//@   bounds-safe
+//@
+//@ func rgbDecoder
+//@   props C10
+//@   loop * havoc
+//@   bounds-safe
+//@
+//@ func torV3AddrsDecoder
+//@   props C10
+//@   loop * havoc
+//@   bounds-safe
+//@
+//@ func (f *FailIncorrectDetails) Decode
+//@   props C10
+//@   loop * havoc
+//@   bounds-safe
+//@
+//@ func (f *FailInvalidOnionVersion) Decode
+//@   props C10
+//@   loop * havoc
+//@   bounds-safe
+//@
+//@ func (f *FailInvalidOnionHmac) Decode
+//@   props C10
+//@   loop * havoc
+//@   bounds-safe
+//@
+//@ func (f *FailInvalidOnionKey) Decode
+//@   props C10
+//@   loop * havoc
+//@   bounds-safe
+//@
+//@ func parseChannelUpdateCompatibilityMode
+//@   props C10
+//@   loop * havoc
+//@   bounds-safe
+//@
+//@ func (f *FailTemporaryChannelFailure) Decode
+//@   props C10
+//@   loop * havoc
+//@   bounds-safe
+//@
+//@ func (f *FailAmountBelowMinimum) Decode
+//@   props C10
+//@   loop * havoc
+//@   bounds-safe
+//@
+//@ func (f *FailFeeInsufficient) Decode
+//@   props C10
+//@   loop * havoc
+//@   bounds-safe
+//@
+//@ func (f *FailIncorrectCltvExpiry) Decode
+//@   props C10
+//@   loop * havoc
+//@   bounds-safe
+//@
+//@ func (f *FailExpiryTooSoon) Decode
+//@   props C10
+//@   loop * havoc
+//@   bounds-safe
+//@
+//@ func (f *FailChannelDisabled) Decode
+//@   props C10
+//@   loop * havoc
+//@   bounds-safe
+//@
+//@ func (f *FailFinalIncorrectCltvExpiry) Decode
+//@   props C10
+//@   loop * havoc
+//@   bounds-safe
+//@
+//@ func (f *FailFinalIncorrectHtlcAmount) Decode
+//@   props C10
+//@   loop * havoc
+//@   bounds-safe
+//@
+//@ func (f *InvalidOnionPayload) Decode
+//@   props C10
+//@   loop * havoc
+//@   bounds-safe
+//@
+//@ func (f *FailInvalidBlinding) Decode
+//@   props C10
+//@   loop * havoc
+//@   bounds-safe
+//@
+//@ func DecodeFailureMessage
+//@   props C10
+//@   loop * havoc
+//@   bounds-safe
+//@
+//@ func (o *OnionMessage) Decode
+//@   props C10
+//@   loop * havoc
+//@   bounds-safe
+//@
+//@ func (o *OnionMessagePayload) Decode
+//@   props C10
+//@   loop * havoc
+//@   bounds-safe
+//@
+//@ func (f *FinalHopTLV) Validate
+//@   props C10
+//@   loop * havoc
+//@   bounds-safe
+//@
+//@ func (o *OpenChannel) Decode
+//@   props C10
+//@   loop * havoc
+//@   bounds-safe
+//@
+//@ func outpointDecoder
+//@   props C10
+//@   loop * havoc
+//@   bounds-safe
+//@
+//@ func partialSigTypeDecoder
+//@   props C10
+//@   loop * havoc
+//@   bounds-safe
+//@
+//@ func (p *PartialSig) Decode
+//@   props C10
+//@   loop * havoc
+//@   bounds-safe
+//@
+//@ func partialSigWithNonceTypeDecoder
+//@   props C10
+//@   loop * havoc
+//@   bounds-safe
+//@
+//@ func (p *PartialSigWithNonce) Decode
+//@   props C10
+//@   loop * havoc
+//@   bounds-safe
+//@
+//@ func (p *Ping) Decode
+//@   props C10
+//@   loop * havoc
+//@   bounds-safe
+//@
+//@ func (p *Pong) Decode
+//@   props C10
+//@   loop * havoc
+//@   bounds-safe
+//@
+//@ func (q *QueryChannelRange) Decode
+//@   props C10
+//@   loop * havoc
+//@   bounds-safe
+//@
+//@ func (q *QueryShortChanIDs) Decode
+//@   props C10
+//@   loop * havoc
+//@   bounds-safe
+//@
+//@ func (c *ReplyShortChanIDsEnd) Decode
+//@   props C10
+//@   loop * havoc
+//@   bounds-safe
+//@
+//@ func (c *RevokeAndAck) Decode
+//@   props C10
+//@   loop * havoc
+//@   bounds-safe
+//@
+//@ func (s *Shutdown) Decode
+//@   props C10
+//@   loop * havoc
+//@   bounds-safe
+//@
+//@ func NewSigFromWireECDSA
+//@   props C10
+//@   loop * havoc
+//@   bounds-safe
+//@
+//@ func (s *Stfu) Decode
+//@   props C10
+//@   loop * havoc
+//@   bounds-safe
+//@
+//@ func timeStampsDecoder
+//@   props C10
+//@   loop * havoc
+//@   bounds-safe
+//@
+//@ func feeDecoder
+//@   props C10
+//@   loop * havoc
+//@   bounds-safe
+//@
+//@ func leaseExpiryDecoder
+//@   props C10
+//@   loop * havoc
+//@   bounds-safe
+//@
+//@ func (c *UpdateAddHTLC) Decode
+//@   props C10
+//@   loop * havoc
+//@   bounds-safe
+//@
+//@ func (c *UpdateFailHTLC) Decode
+//@   props C10
+//@   loop * havoc
+//@   bounds-safe
+//@
+//@ func (c *UpdateFailMalformedHTLC) Decode
+//@   props C10
+//@   loop * havoc
+//@   bounds-safe
+//@
+//@ func (c *UpdateFee) Decode
+//@   props C10
+//@   loop * havoc
+//@   bounds-safe
+//@
+//@ func (c *UpdateFulfillHTLC) Decode
+//@   props C10
+//@   loop * havoc
+//@   bounds-safe
+//@
+//@ func (c *Warning) Decode
+//@   props C10
+//@   loop * havoc
+//@   bounds-safe
+//@
+//@ // ---- node_announcement_2 address lists: every decoded address owns its bytes (finding F14: one buffer declared
+//@ // ---- outside the loop backed every address, so all decoded addresses showed the last one read)
+//@ func ipv4AddrsDecoder
+//@   props C10
+//@   loop * havoc
+//@   bounds-safe
+//@   site store TCPAddr.IP as each-address-owns-its-bytes: assert iterfresh(value)
+//@
+//@ func ipv6AddrsDecoder
+//@   props C10
+//@   loop * havoc
+//@   bounds-safe
+//@   site store TCPAddr.IP as each-address-owns-its-bytes: assert iterfresh(value)
